@@ -13,7 +13,8 @@ MODES = ['nearest', 'wrap', 'reflect', 'mirror', 'constant', 'ignore']
 DTYPES = ['uint8', 'int32', 'float64', 'int8', 'uint16', 'int64', 'uint64', 'float32', 'bool']
 DTNAMES = {'bool': 'b1', 'uint8': 'u8', 'uint16': 'u16', 'uint32': 'u32', 'uint64': 'u64',
            'int8': 'i8', 'int16': 'i16', 'int32': 'i32', 'int64': 'i64'}   # protocol names of DT.ofName
-RULE = ('corpus; currank: blocks of 2000 triples (n, N2 < 2^26, rank) incl. quotients at / one step below an integer; find: every placement of every sub-window of seeded images up to 6x6 (incl. last row/column and template = '
+RULE = ('corpus; size-threshold stream (rows of 2^15+1 / 2^16-1 / 2^16 / 2^16+1 pixels, 257x256 images, neighbourhoods of 255 / 256 / 257 '
+        '/ 65537 members, find with its only match beyond index 65535; judged by the same Lean model and specification); currank: blocks of 2000 triples (n, N2 < 2^26, rank) incl. quotients at / one step below an integer; find: every placement of every sub-window of seeded images up to 6x6 (incl. last row/column and template = '
         'image) plus perturbed (non-occurring) templates; random 1-3 D x 9 dtypes x 7 layouts x 0/1 neighbourhoods of every '
         'shape (odd/even, larger than the image, centre absent) x every rank x 6 modes; templates of every shape; float32/float64 '
         'template_match and mean_filter on dyadic values K/2^s of both signs up to the full significand; majority_filter on '
@@ -306,6 +307,8 @@ def evaluate(cases):
         tags = dict(kind=case['kind'], dtype=case['dtype'], ndim=len(sh), layout=case.get('layout', 'C'),
                     mode=case.get('mode', '-'),
                     elem=('larger' if any(b > s for b, s in zip(bs, sh)) else 'even' if any(b % 2 == 0 for b in bs) else 'odd'))
+        if case.get('size'):
+            tags['size_threshold'] = case['size']
         if case['kind'] == 'find':
             tags['find'] = case.get('tag', 'random')
         if case.get('_undefined'):
@@ -440,11 +443,54 @@ def _currank_cases(rng, nblocks):
     return out
 
 
+def _threshold_cases(rng, tier):
+    """size-threshold stream: element counts / neighbourhood sizes / match positions crossing 2^8, 2^15, 2^16 (+-1), so that a
+    counter, index or accumulator narrowed to 8/16 bits cannot pass. Judged by the same Lean model/spec (the driver is
+    linear on these: < 1 s per line)."""
+    pool = []
+    def row(nn):
+        return rng.choice([[nn], [1, nn], [nn, 1]])
+    for nn in (2 ** 16 + 1, 2 ** 16, 2 ** 15 + 1, 2 ** 16 - 1):
+        dt = rng.choice(['uint8', 'int32', 'uint16', 'float64', 'int64'])
+        sh = row(nn)
+        one = lambda k: [k if d > 1 else 1 for d in sh]
+        pool.append(dict(kind='rank', dtype=dt, shape=sh, data=_data(rng, nn, dt, small=True), bshape=one(3), bc=[1, 1, 1],
+                         rank=rng.randrange(3), mode=rng.choice(MODES), layout='C', size='pixels'))
+        pool.append(dict(kind='mean', dtype=dt, shape=sh, data=_data(rng, nn, dt, small=True), bshape=one(3), bc=[1, 1, 1],
+                         mode=rng.choice(MODES), layout='C', size='pixels'))
+        dti = rng.choice(['uint8', 'uint16', 'int32', 'int8'])
+        pool.append(dict(kind='tm', dtype=dti, shape=sh, data=_data(rng, nn, dti, small=True), bshape=one(3), bc=[1, 2, 3],
+                         mode=rng.choice(MODES), layout='C', blayout='C', values='small', size='pixels'))
+        # find: the only occurrence is flush with the far end (index > 65535)
+        for sh2, ts in (([1, nn], [1, 3]), ([nn, 1], [3, 1])):
+            pool.append(dict(kind='find', dtype=rng.choice(['uint8', 'int32', 'bool', 'float64'][:1] + ['int32', 'float64']),
+                             shape=sh2, data=[0] * (nn - 3) + [1, 2, 3], bshape=ts, bc=[1, 2, 3], layout='C', tag='flush', size='pixels'))
+    pool.append(dict(kind='median', dtype='int32', shape=[257, 256], data=_data(rng, 257 * 256, 'int32', small=True),
+                     bshape=[3, 3], bc=[1] * 9, mode=rng.choice(MODES), layout='C', size='pixels'))
+    pool.append(dict(kind='mean', dtype='uint8', shape=[256, 257], data=_data(rng, 257 * 256, 'uint8'),
+                     bshape=[3, 3], bc=[0, 1, 0, 1, 1, 1, 0, 1, 0], mode='ignore', layout='C', size='pixels'))
+    # neighbourhoods with 255 / 256 / 257 / 65537 members: n, N2, currank, the sample buffer
+    for n2 in (255, 256, 257, 2 ** 16 + 1):
+        ln = rng.randint(2, 5) if n2 > 1000 else rng.randint(100, 300)
+        dt = rng.choice(['uint8', 'int32', 'float64'])
+        pool.append(dict(kind='rank', dtype=dt, shape=[ln], data=_data(rng, ln, dt), bshape=[n2], bc=[1] * n2,
+                         rank=rng.choice([n2 - 1, n2 // 2, rng.randrange(n2)]), mode=rng.choice(MODES), layout='C',
+                         blayout='C', size='members'))
+        pool.append(dict(kind='mean', dtype=dt, shape=[ln], data=_data(rng, ln, dt, small=True), bshape=[n2], bc=[1] * n2,
+                         mode=rng.choice(MODES), layout='C', size='members'))
+    if tier == 'quick':
+        members = [c for c in pool if c['size'] == 'members']
+        pixels = [c for c in pool if c['size'] == 'pixels']
+        return rng.sample(pixels, 6) + rng.sample(members, 3)
+    return pool
+
+
 def cases(rng, tier):
     out = list(_corpus()) if tier != 'search' else []
     out += _find_cases(rng, 'quick' if tier == 'quick' else 'thorough')
     if tier != 'search':
         out += _currank_cases(rng, 2 if tier == 'quick' else 20)
+        out += _threshold_cases(rng, tier)
     nrand = dict(quick=12000, thorough=200000, search=20000)[tier]
     for _ in range(nrand):
         r = rng.random()
